@@ -296,6 +296,9 @@ def run(ck):
         futs.append(ex.submit(bugswitch))
         for f in futs:
             f.result()
+    oc = ck.cov.get("observed_counts", {})
+    if not (oc.get('"kind":"frame"') and oc.get('"kind":"needmore"') and oc.get('"kind":"toobig"')):
+        raise vlib.Inconclusive("vacuous run: the recorded traces lack one of the decode outcomes %r" % (oc,))
     ck.cov["tlc_runs"].sort(key=lambda r: r["name"])
     ck.cov["model_findings"] = sorted(model_findings)
     ck.cov["exhaustive"] = True
